@@ -113,11 +113,20 @@ func try(f func()) (panicked bool, msg string) {
 		if r := recover(); r != nil {
 			panicked = true
 			msg = fmt.Sprint(r)
+			// In a single-goroutine driver nobody else can hold the year-cache lock: if it is held after a recovered
+			// panic it was leaked by the call that panicked, and every later call would block for ever.
+			if singleThreaded && !calendar.VerifLockFree() {
+				fmt.Fprintln(os.Stderr, "LZ-LOCK-LEAKED: a call panicked with the year-cache lock held ("+msg+"); driver gives up")
+				os.Exit(3)
+			}
 		}
 	}()
 	f()
 	return false, ""
 }
+
+// singleThreaded: false in the drivers that run library calls on several goroutines (they have their own watchdogs)
+var singleThreaded = true
 
 // mine reports whether item i belongs to this shard.
 func (c *ctx) mine(i int) bool { return ((i%c.nshard)+c.nshard)%c.nshard == c.shard }
@@ -257,19 +266,31 @@ func main() {
 		os.Exit(2)
 	}
 	c.open()
-	// A call that panics (and is recovered by a driver) or returns while the library's year-cache lock is held
-	// blocks every later call for ever.  That is C09's business (c09total / c09sched report it as an observation);
-	// every other driver just must not hang for an hour: give up when the lock has been held for a minute.
+	// A call that returns (or panics and is recovered) with the library's year-cache lock held blocks every later
+	// call for ever.  That is C09's business (c09total / c09sched report it as an observation); every other driver
+	// just must not hang for an hour.  try() notices the panicking case at once (see singleThreaded); the fallback
+	// here fires only when nothing was emitted for 20 minutes AND the lock is never seen free during a whole second
+	// of continuous polling (a busy lock is released thousands of times a second, a leaked one never).
 	go func() {
-		stuck := 0
+		last, since := -1, time.Now()
 		for {
-			time.Sleep(2500 * time.Millisecond)
-			if calendar.VerifLockFree() {
-				stuck = 0
-			} else if stuck++; stuck >= 24 {
-				fmt.Fprintln(os.Stderr, "LZ-LOCK-STUCK: the year-cache lock has been held for 60 s (a call panicked or returned with the lock held); driver gives up")
+			time.Sleep(30 * time.Second)
+			if c.lines != last {
+				last, since = c.lines, time.Now()
+				continue
+			}
+			if time.Since(since) < 20*time.Minute {
+				continue
+			}
+			free := false
+			for t0 := time.Now(); time.Since(t0) < time.Second && !free; {
+				free = calendar.VerifLockFree()
+			}
+			if !free {
+				fmt.Fprintln(os.Stderr, "LZ-LOCK-STUCK: no event for 20 minutes and the year-cache lock is never free; driver gives up")
 				os.Exit(3)
 			}
+			since = time.Now()
 		}
 	}()
 	f(c)
